@@ -469,3 +469,8 @@ RULES = [
     Rule("C08.G6", rule_G6, floor=4, doc="metadata counts"),
     Rule("C08.G7", rule_G7, floor=3, doc="filters of a configuration are all applied, in order (re-judged C04.E5)"),
 ]
+
+from sa import exits as _exits  # noqa: E402
+
+RULES.append(Rule("C08.RX", _exits.make_rule("C08", "C08.RX", _exits.SCOPES["C08"]), floor=1,
+                  doc="rejection conditions: the anchored functions refuse inputs only under the conditions confirmed on the pinned tree (E16)"))
